@@ -17,8 +17,9 @@
  * torn down by DISCONNECT (not only idle timeout / eviction / teardown) while observations, an application reference
  * or nothing hang off them, and one session holds up to three observations.  The model: a disconnect ends every
  * observation of that session (and only those); a TCP session whose connection is gone and which nobody holds MAY be
- * reclaimed at once and MUST be reclaimed once the session timeout has passed; a UDP session survives
- * coap_session_disconnected() and is reclaimed by the ordinary rules.  At every quiescent point the reclaimability
+ * reclaimed at once and MUST be reclaimed once the session timeout has passed; the same holds for a UDP session the
+ * application declared failed until the peer's next datagram (libcoap keeps it; dropping it early would be no
+ * violation of the statement).  At every quiescent point the reclaimability
  * libcoap itself uses (session->ref == 0) must agree with the model's holder set (application, observation, async).
  */
 #include "netsim.h"
@@ -53,6 +54,42 @@ __wrap_coap_free_type(coap_memory_tag_t type, void *p) {
   __real_coap_free_type(type, p);
 }
 
+/* coap_new_context() -> coap_dtls_new_context() -> gnutls_priority_init() parses the cipher-suite string again for every
+ * context: a third of the CPU time of a case, and no (D)TLS session exists in this check.  The parsed object of the
+ * first call is shared by all later contexts of the process (it is immutable once built); libcoap's code is unchanged. */
+#include <gnutls/gnutls.h>
+int __real_gnutls_priority_init(gnutls_priority_t *cache, const char *prio, const char **err);
+void __real_gnutls_priority_deinit(gnutls_priority_t cache);
+int __wrap_gnutls_priority_init(gnutls_priority_t *cache, const char *prio, const char **err);
+void __wrap_gnutls_priority_deinit(gnutls_priority_t cache);
+static gnutls_priority_t prio_shared;
+static char prio_shared_str[256];
+int
+__wrap_gnutls_priority_init(gnutls_priority_t *cache, const char *prio, const char **err) {
+  if (prio_shared && prio && !strcmp(prio, prio_shared_str)) {
+    *cache = prio_shared;
+    return 0;
+  }
+  int r = __real_gnutls_priority_init(cache, prio, err);
+  if (r == 0 && !prio_shared && prio && strlen(prio) < sizeof prio_shared_str) {
+    strcpy(prio_shared_str, prio);
+    prio_shared = *cache;
+  }
+  return r;
+}
+void
+__wrap_gnutls_priority_deinit(gnutls_priority_t cache) {
+  if (cache && cache == prio_shared)
+    return;
+  __real_gnutls_priority_deinit(cache);
+}
+__attribute__((destructor)) static void
+prio_shared_fini(void) {
+  if (prio_shared)
+    __real_gnutls_priority_deinit(prio_shared);
+  prio_shared = NULL;
+}
+
 enum {
   OP_REQ0, OP_REQ1, OP_REQ2, OP_REQ3, OP_REQREF0, OP_REL0, OP_OBS0, OP_CANCEL0, OP_ASYNC1, OP_TRIG, OP_CHG, OP_JUMP_BEFORE, OP_JUMP_PAST, OP_QUIET0, OP_QUIET2,
   OP_N_OLD,
@@ -71,9 +108,9 @@ static const int xops[] = {OP_REQ0, OP_REQ1, OP_REQREF0, OP_REL0, OP_OBS0, OP_CA
 #define NSLOT (NPEER + MAXT)  /* model slots: one per UDP peer, one per TCP connection */
 #define TIMEOUT_S 5
 #define T_HOST 13
-#define OB_O 1  /* /o, token 0x30 (UDP) / 0x60 (TCP) */
-#define OB_O2 2 /* /o2 */
-#define OB_OQ 4 /* /o?v=1 with another token */
+#define OB_O 1  /* /o (tokens: UDP 0x30, TCP 0x63) */
+#define OB_O2 2 /* /o2 (tokens: UDP 0x31, TCP 0x64) */
+#define OB_OQ 4 /* /o?v=1 with another token (UDP 0x32) */
 
 struct msess {
   int alive;
@@ -82,7 +119,8 @@ struct msess {
   int app_refs, obs /* set of OB_* */, async;
   int new_events, del_events;
   int tcp;      /* slot of a TCP connection */
-  int gone;     /* TCP: the connection has ended (peer closed it / sent Release) */
+  int gone;     /* TCP: the connection has ended (peer closed it / sent Release); UDP: the application declared the
+                 * session failed and no datagram of the peer has arrived since */
   int was_disc; /* some disconnect has hit this session (diagnostics only) */
 };
 static struct msess M[NSLOT];
@@ -106,15 +144,22 @@ static size_t trace_len;
 static int failed;
 static char opseq[240];
 
+/* trace text is appended without printf: the sanitizer's vsnprintf interceptor is slow and this runs per event */
 static void
-tr(const char *fmt, ...) {
-  va_list ap;
-  va_start(ap, fmt);
-  if (trace_len < sizeof trace - 1)
-    trace_len += (size_t)vsnprintf(trace + trace_len, sizeof trace - trace_len, fmt, ap);
-  va_end(ap);
-  if (trace_len >= sizeof trace)
-    trace_len = sizeof trace - 1;
+tr_s(const char *t) {
+  size_t n = strlen(t);
+  if (n > sizeof trace - 1 - trace_len)
+    n = sizeof trace - 1 - trace_len;
+  memcpy(trace + trace_len, t, n);
+  trace_len += n;
+  trace[trace_len] = 0;
+}
+static void
+tr4(const char *a, const char *b, const char *c, const char *d) {
+  tr_s(a);
+  tr_s(b);
+  tr_s(c);
+  tr_s(d);
 }
 static void
 fail(const char *sig, const char *fmt, ...) {
@@ -133,14 +178,8 @@ nslots(void) {
 }
 static const char *
 pname(int p) {
-  static char b[4][16];
-  static int k;
-  char *o = b[k++ & 3];
-  if (p < NPEER)
-    snprintf(o, 16, "p%d", p);
-  else
-    snprintf(o, 16, "t0#%d", p - NPEER);
-  return o;
+  static const char *const n[NSLOT] = {"p0", "p1", "p2", "p3", "t0#0", "t0#1", "t0#2", "t0#3", "t0#4", "t0#5", "t0#6", "t0#7"};
+  return p >= 0 && p < NSLOT ? n[p] : "?";
 }
 static int
 peer_of_session(const coap_session_t *s) {
@@ -175,7 +214,7 @@ event_handler(coap_session_t *s, const coap_event_t e) {
   if (e != COAP_EVENT_SERVER_SESSION_NEW && e != COAP_EVENT_SERVER_SESSION_DEL)
     return 0;
   int p = peer_of_session(s);
-  tr(" %s(%s)", e == COAP_EVENT_SERVER_SESSION_NEW ? "NEW" : "DEL", p < 0 ? "?" : pname(p));
+  tr4(e == COAP_EVENT_SERVER_SESSION_NEW ? " NEW(" : " DEL(", p < 0 ? "?" : pname(p), ")", "");
   if (p < 0) {
     fail("event:unknown-peer", "session event for an address no peer uses");
     return 0;
@@ -196,8 +235,9 @@ event_handler(coap_session_t *s, const coap_event_t e) {
     if (m->ptr != s)
       fail("event:DEL-of-other-object", "SERVER_SESSION_DEL for %s names a different session object than NEW did", pname(p));
     if (!exp_del[p]) {
-      if (m->alive && m->tcp && m->gone && !held(m)) {
-        /* the connection is gone and nobody holds the session: reclaiming it before the timeout is allowed */
+      if (m->alive && m->gone && !held(m)) {
+        /* the connection is gone (TCP) / the application declared the session failed and the peer has not been heard
+         * since (UDP), and nobody holds the session: reclaiming it before the timeout is allowed */
         m->alive = 0;
         vxp_count(3, 1);
       } else {
@@ -307,7 +347,9 @@ model_arrival(int p) {
     exp_new[p] = 1;
     M[p].alive = 1;
     M[p].app_refs = M[p].obs = M[p].async = 0;
+    M[p].was_disc = 0;
   }
+  M[p].gone = 0; /* traffic on a session the application had declared failed: it is in use again */
   M[p].last = ns_now();
 }
 
@@ -398,8 +440,38 @@ t_req(const char *path, int observe, uint8_t tok) {
 /* model: a disconnect ends every observation of the session; what else hangs off it stays */
 static void
 model_disconnect(int p) {
+  if (M[p].obs & (M[p].obs - 1))
+    vxp_count(9, 1); /* the session held two or three observations */
+  if (M[p].app_refs)
+    vxp_count(10, 1);
   M[p].obs = 0;
   M[p].was_disc = 1;
+}
+
+/* quiescent point: libcoap reclaims a server session iff session->ref == 0 (and never frees one with ref > 0), so
+ * "somebody holds it" in the model and in libcoap must agree -- a stuck reference means the session is never
+ * reclaimed, a missing one that it can be freed under its holder */
+static int
+audit_refs(const char *opname) {
+  for (int p = 0; p < nslots(); p++) {
+    struct msess *m = &M[p];
+    if (!m->alive || !m->ptr)
+      continue;
+    unsigned ref = m->ptr->ref;
+    if (!held(m) && ref != 0) {
+      char sig[100];
+      snprintf(sig, sizeof sig, "refcount:stuck-reference-on-unheld-session:%s", m->was_disc ? "after-disconnect" : "no-disconnect");
+      fail(sig, "after %s: session of %s has ref=%u although no application reference, observation or async entry refers to it: it can never be reclaimed", opname, pname(p), ref);
+      return 0;
+    }
+    if (held(m) && ref == 0) {
+      char sig[120];
+      snprintf(sig, sizeof sig, "refcount:no-reference-for-holder:%s", holders(m));
+      fail(sig, "after %s: session of %s has ref=0 although it is held by %s: it can be reclaimed under its holder", opname, pname(p), holders(m));
+      return 0;
+    }
+  }
+  return 1;
 }
 
 static void
@@ -419,27 +491,8 @@ check_step(const char *opname) {
   }
   if (failed)
     return;
-  /* quiescent point: libcoap reclaims a server session iff session->ref == 0 (and never frees one with ref > 0), so
-   * "somebody holds it" in the model and in libcoap must agree -- a stuck reference means the session is never
-   * reclaimed, a missing one that it can be freed under its holder */
-  for (int p = 0; p < nslots(); p++) {
-    struct msess *m = &M[p];
-    if (!m->alive || !m->ptr)
-      continue;
-    unsigned ref = m->ptr->ref;
-    if (!held(m) && ref != 0) {
-      char sig[100];
-      snprintf(sig, sizeof sig, "refcount:stuck-reference-on-unheld-session:%s", m->was_disc ? "after-disconnect" : "no-disconnect");
-      fail(sig, "after %s: session of %s has ref=%u although no application reference, observation or async entry refers to it: it can never be reclaimed", opname, pname(p), ref);
-      return;
-    }
-    if (held(m) && ref == 0) {
-      char sig[120];
-      snprintf(sig, sizeof sig, "refcount:no-reference-for-holder:%s", holders(m));
-      fail(sig, "after %s: session of %s has ref=0 although it is held by %s: it can be reclaimed under its holder", opname, pname(p), holders(m));
-      return;
-    }
-  }
+  if (!audit_refs(opname))
+    return;
   /* the server must not have closed a connection whose session the model still has connected */
   if (t_open() && tst[tcur - NPEER]->side[0].peer_closed)
     fail("tcp:server-closed-live-connection", "after %s: the server closed the connection of %s (holders: %s, idle %llu ms)", opname, pname(tcur), holders(&M[tcur]),
@@ -451,7 +504,7 @@ do_op(int op) {
   memset(exp_new, 0, sizeof exp_new);
   memset(exp_del, 0, sizeof exp_del);
   ns_advance(10); /* distinct time stamps: "oldest idle session" is unambiguous */
-  tr(" | %s:", op_names[op]);
+  tr4(" | ", op_names[op], ":", "");
   switch (op) {
   case OP_REQ0:
   case OP_REQ1:
@@ -476,7 +529,7 @@ do_op(int op) {
     ns_inject(&peer[p], &srv[peer_ep[p]], w.b, w.n);
     pump();
     if (ns_total_sent() != before)
-      tr("(answered!)");
+      tr_s("(answered!)");
     else
       vxp_count(2, 1);
     break;
@@ -529,8 +582,10 @@ do_op(int op) {
     if (M[0].alive && M[0].ptr) {
       coap_session_disconnected((coap_session_t *)(uintptr_t)M[0].ptr, COAP_NACK_NOT_DELIVERABLE);
       model_disconnect(0);
+      M[0].gone = 1;
       vxp_count(6, 1);
     }
+    model_reclaim(); /* it may have been idle past the timeout and held by its observations only */
     pump();
     break;
   case OP_ASYNC1:
@@ -616,6 +671,7 @@ do_op(int op) {
       ns_stream_raw_close(st, 0);
       vxp_count(7, 1);
     }
+    model_reclaim();
     pump();
     break;
   }
@@ -643,7 +699,11 @@ one_case(uint64_t idx, void *arg) {
       ops[i] = xops[ops[i]];
     any_new |= ops[i] >= OP_N_OLD;
     x /= (uint64_t)nalpha;
-    ol += (size_t)snprintf(opseq + ol, sizeof opseq - ol, "%s%s", i ? " " : "", op_names[ops[i]]);
+    size_t nl = strlen(op_names[ops[i]]);
+    if (i)
+      opseq[ol++] = ' ';
+    memcpy(opseq + ol, op_names[ops[i]], nl + 1); /* 8 names of <= 12 characters fit */
+    ol += nl;
   }
   if (sp->ext && !any_new) {
     vxp_count(1, 1); /* a sequence of old operations only: run in the "ops" spaces */
@@ -704,32 +764,49 @@ one_case(uint64_t idx, void *arg) {
   /* teardown at this point: a well-behaved application drops its own references first */
   memset(exp_new, 0, sizeof exp_new);
   memset(exp_del, 0, sizeof exp_del);
+  int app_released = 0;
   if (held_ref) {
     coap_session_release(held_ref);
     held_ref = NULL;
     M[0].app_refs = 0;
+    app_released = 1;
   }
   if (held_ref_t) {
     coap_session_release(held_ref_t);
     held_ref_t = NULL;
     M[held_t_slot].app_refs = 0;
+    app_released = 1;
   }
-  tr(" | teardown:");
-  int two_obs_disc = 0;
+  if (!failed && (app_released))
+    audit_refs("the application's release before teardown");
+  tr_s(" | teardown:");
+  int disc_case = 0;
   for (int p = 0; p < nslots(); p++) {
     if (M[p].alive) {
       exp_del[p] = 1;
       exp_del_why[p] = "teardown";
     }
-    two_obs_disc |= M[p].was_disc;
+    disc_case |= M[p].was_disc;
   }
   ns_unregister_ctx(ctx);
   if (failed) {
-    /* the model and libcoap disagree already (reported above); coap_free_context() on a session with a stuck
-     * reference would only add libcoap's own assert(ref == 0) to the report */
-    ns_fini();
-    vxp_count(0, 1);
-    return;
+    /* the model and libcoap disagree already (reported above).  If a session still carries a reference,
+     * coap_free_context() would only add libcoap's own assert(ref == 0) to that report: leave the context alone.
+     * On a run without failure the assert stays live. */
+    coap_endpoint_t *e;
+    coap_session_t *s, *stmp;
+    int stuck = 0;
+    LL_FOREACH(ctx->endpoint, e) {
+      SESSIONS_ITER_SAFE(e->sessions, s, stmp) {
+        stuck |= s->ref != 0;
+      }
+    }
+    if (stuck) {
+      ns_fini();
+      vxp_count(0, 1);
+      vxp_count(11, (uint64_t)sp->depth);
+      return;
+    }
   }
   coap_free_context(ctx);
   if (!failed) {
@@ -746,7 +823,8 @@ one_case(uint64_t idx, void *arg) {
   if (!failed && live_blocks != 0)
     fail(live_blocks > 0 ? "leak:funnel-balance" : "double-free:funnel-balance", "%ld blocks from coap_malloc_type live after coap_free_context()", live_blocks);
   vxp_count(0, 1);
-  if (two_obs_disc)
+  vxp_count(11, (uint64_t)sp->depth);
+  if (disc_case)
     vxp_count(8, 1);
   int nontrivial = 0;
   for (int p = 0; p < nslots(); p++)
@@ -755,4 +833,115 @@ one_case(uint64_t idx, void *arg) {
     vxp_distinct(vx_fnv(trace, trace_len, VX_FNV0));
   if (idx % 9973 == 17)
     vxp_sample("%smax_idle=%d ops=[%s] events:%s", sp->ext ? "x " : "", max_idle, opseq, trace);
+}
+
+static uint64_t
+ipow(uint64_t b, int e) {
+  uint64_t n = 1;
+  while (e-- > 0)
+    n *= b;
+  return n;
+}
+
+#define MAXSPACE 64
+int
+main(int argc, char **argv) {
+  vx_main_init(argc, argv, "C12");
+  int T = vx_is_thorough();
+  static struct space sp[MAXSPACE];
+  int nsp = 0;
+  /* bounds.  old alphabet (15 operations): every depth 1..5 (thorough 1..6) x max_idle_sessions {0,1,2}
+   * (3 x 15^6 = 34 M cases in thorough; measured: 165 s wall, 42 CPU-minutes, on a moderately busy 16-core machine).
+   * enlarged alphabet (18 operations): every depth 1..4 (thorough 1..5) x max_idle_sessions {0,1,2}.
+   * Run order: small spaces first, the largest last, so a slow machine loses the tail of the largest space only. */
+  const int d_old = 5, d_ext = T ? 5 : 4;
+  for (int pass = 0; pass < 4; pass++)
+    for (int d = 1; d <= 6; d++)
+      for (int mi = 0; mi < 3; mi++) {
+        int is_ext = pass == 0 || pass == 2;
+        int dmax = is_ext ? d_ext : d_old;
+        /* pass 0: enlarged, below its maximum depth; 1: old, below its maximum depth; 2: enlarged at maximum depth;
+         * 3: old at maximum depth (and thorough: depth 6) */
+        int take;
+        if (pass < 2)
+          take = d < dmax;
+        else if (is_ext)
+          take = d == dmax;
+        else
+          take = d == dmax || (T && d == 6);
+        if (!take)
+          continue;
+        if (nsp >= MAXSPACE) {
+          fprintf(stderr, "VX-HARNESS: c12-space-table-overflow\n");
+          abort();
+        }
+        snprintf(sp[nsp].name, sizeof sp[nsp].name, "%s:depth=%d:max_idle=%d", is_ext ? "xops" : "ops", d, mi);
+        sp[nsp].depth = d;
+        sp[nsp].max_idle = mi;
+        sp[nsp].ext = is_ext;
+        nsp++;
+      }
+  for (int i = 0; i < nsp; i++)
+    if (vxp_replay_if_match(sp[i].name, one_case, &sp[i]))
+      return 0;
+  if (vx_replay_path()) {
+    fprintf(stderr, "replay file does not match any space\n");
+    return 2;
+  }
+  uint64_t total = 0;
+  for (int i = 0; i < nsp; i++) {
+    uint64_t n = ipow(sp[i].ext ? (uint64_t)XOP_N : OP_N_OLD, sp[i].depth);
+    struct vxp_config c = {.space = sp[i].name, .total = n};
+    struct vxp_stats st;
+    vxp_enumerate(&c, one_case, &sp[i], &st);
+    total += st.done;
+  }
+  uint64_t run = vxp_counter(0);
+  vx_ev_add_states((long long)run, (long long)vxp_counter(11), (long long)run);
+  vx_ev_int("indices_enumerated", (long long)total);
+  vx_ev_add_evals((long long)run, (long long)vxp_distinct_count());
+  vx_ev_int("unanswered_datagrams_delivered", (long long)vxp_counter(2));
+  vx_ev_int("xops_indices_without_new_operation_skipped", (long long)vxp_counter(1));
+  vx_ev_int("tcp_connections_accepted", (long long)vxp_counter(5));
+  vx_ev_int("tcp_disconnects_by_peer", (long long)vxp_counter(7));
+  vx_ev_int("udp_disconnects_by_application", (long long)vxp_counter(6));
+  vx_ev_int("disconnects_of_a_session_with_2_or_3_observations", (long long)vxp_counter(9));
+  vx_ev_int("disconnects_of_a_session_with_application_reference", (long long)vxp_counter(10));
+  vx_ev_int("cases_with_a_disconnect", (long long)vxp_counter(8));
+  vx_ev_int("sessions_reclaimed_before_timeout_after_disconnect", (long long)vxp_counter(3));
+  vx_ev_rule(T ? "(ops) all operation sequences of depth 1..6 x max_idle_sessions {0,1,2} "
+                 "over 15 operations {request from 4 UDP peers (distinct address, same address other port, "
+                 "same address+port on a second endpoint), request whose handler takes an application reference, release, observe register/cancel, "
+                 "async register/trigger, resource change, time jump to timeout-1s / timeout+1s, a datagram from p0 / p2 that is heard but not answered "
+                 "(NON with No-Response)}; (xops) all sequences of depth 1..5 x max_idle_sessions {0,1,2} over 18 operations that contain at least one of the "
+                 "10 new ones: {p0 observes a second resource, p0 observes the first resource again with another token+query, the application calls "
+                 "coap_session_disconnected() on p0's session, raw TCP client t0 (connect+CSM on demand, fresh source port per connection): request, request "
+                 "whose handler takes an application reference, release of it, observe /o, observe /o2, close the connection, send 7.04 Release and close} "
+                 "+ 8 old ones {request p0, request p1, request+reference p0, release p0, observe p0, cancel p0, resource change (both resources), "
+                 "jump timeout+1s}; session_timeout 5 s; each sequence is followed by context teardown; a reference model predicts every "
+                 "SERVER_SESSION_NEW/DEL (a disconnect ends all observations of that session; a disconnected session without holder may be reclaimed "
+                 "at once and must be after the timeout; a UDP session that survives is the peer's session again with its next datagram), at every quiescent point session->ref==0 must agree with "
+                 "'no application reference, observation or async entry' in the model, after teardown NEW/DEL balance and allocation-funnel balance are zero, "
+                 "ASan watches throughout; non-trivial = at least one session was deleted; distinct = distinct event traces"
+               : "(ops) all operation sequences of depth 1..5 x max_idle_sessions {0,1,2} "
+                 "over 15 operations {request from 4 UDP peers (distinct address, same address other port, "
+                 "same address+port on a second endpoint), request whose handler takes an application reference, release, observe register/cancel, "
+                 "async register/trigger, resource change, time jump to timeout-1s / timeout+1s, a datagram from p0 / p2 that is heard but not answered "
+                 "(NON with No-Response)}; (xops) all sequences of depth 1..4 x max_idle_sessions {0,1,2} over 18 operations that contain at least one of the "
+                 "10 new ones: {p0 observes a second resource, p0 observes the first resource again with another token+query, the application calls "
+                 "coap_session_disconnected() on p0's session, raw TCP client t0 (connect+CSM on demand, fresh source port per connection): request, request "
+                 "whose handler takes an application reference, release of it, observe /o, observe /o2, close the connection, send 7.04 Release and close} "
+                 "+ 8 old ones {request p0, request p1, request+reference p0, release p0, observe p0, cancel p0, resource change (both resources), "
+                 "jump timeout+1s}; session_timeout 5 s; each sequence is followed by context teardown; a reference model predicts every "
+                 "SERVER_SESSION_NEW/DEL (a disconnect ends all observations of that session; a disconnected session without holder may be reclaimed "
+                 "at once and must be after the timeout; a UDP session that survives is the peer's session again with its next datagram), at every quiescent point session->ref==0 must agree with "
+                 "'no application reference, observation or async entry' in the model, after teardown NEW/DEL balance and allocation-funnel balance are zero, "
+                 "ASan watches throughout; non-trivial = at least one session was deleted; distinct = distinct event traces");
+  vx_ev_assumption("no network faults in this check (C06-C11 cover schedules); peers acknowledge Confirmable notifications; TCP bytes arrive unsegmented "
+                   "(C02/C05 cover segmentation)");
+  vx_ev_assumption("the application releases its own session references before coap_free_context()");
+  vx_ev_assumption("enlarged alphabet: one TCP client with at most one open connection at a time (earlier connections may still have a session held by "
+                   "the application), no async on TCP, no application disconnect of a TCP session, no disconnect discovered by a failing write; "
+                   "old operations req(p2), req(p3), async, trigger, jump(T-1), quiet are not combined with the new ones");
+  return vx_finish();
 }
